@@ -28,6 +28,10 @@ def events():
         "prop65280": wire.ebyte_packet(wire.can_id(7, 65280, 2, 255), bytes.fromhex("e598010203040506")),
         "claim1": wire.claim_packet(1, wire.iso_name(unique=5, mfr=1855)),
         "claim2": wire.claim_packet(2, wire.iso_name(unique=6, mfr=229)),
+        # the same sources claim again with another NAME (a unit was swapped): the identity attached to
+        # later messages must follow the latest claim whether or not the claim itself is delivered
+        "claim1b": wire.claim_packet(1, wire.iso_name(unique=7, mfr=229, function=140, dev_class=10)),
+        "claim2b": wire.claim_packet(2, wire.iso_name(unique=8, mfr=1855, function=150, dev_class=40)),
     }
     fr = wire.fast_frames(3, bytes([0x02, 0x00]) + bytes(range(10, 17)))
     ident = wire.can_id(3, 130816, 1, 255)
